@@ -1,42 +1,24 @@
 //! ant-networking/src/{cmd.rs, driver.rs, event/request_response.rs}, ant-protocol/src/lib.rs
 //!   → lean/SafeNet/Gen/Replication.lean
 //! What is read: K_VALUE (libp2p-kad), CLOSE_GROUP_SIZE, MIN_REPLICATION_INTERVAL_S, REPLICATION_TIMEOUT; the guard of the
-//! `Cmd::Replicate` handler (closest-K membership, not self, joined by `||`, followed by `return`); the shape of
-//! `get_closest_k_value_local_peers` (self first, then the nearest peers, cut at K_VALUE); that the handler passes the
-//! request's `holder`/`keys` on and filters against the whole local index; that `try_interval_replication` lists the
-//! whole index unfiltered and sends it to every remaining target; the comparison operators of the throttle, of the
-//! per-target timestamp, of `get_peers_in_range` and of the close-group fallback in `get_replicate_candidates`.
+//! `Cmd::Replicate` handler (closest-K membership, not self); the shape of `get_closest_k_value_local_peers` (self first,
+//! then the nearest peers, cut at K_VALUE); that the handler passes the request's `holder`/`keys` on and filters against
+//! the whole local index; that `try_interval_replication` lists the whole index unfiltered and sends it to every remaining
+//! target; the comparison operators of the throttle and of the per-target timestamp; the selection step of
+//! `get_replicate_candidates`.
+//!
+//! Recognition is by DATA FLOW, not by identifier: every function body is walked in source order with an environment that
+//! maps each local (let / if-let / let-else / match-arm / for / closure binding, function parameter) to the canonical text
+//! of what it is bound to, private same-file helpers are entered with their parameters bound to the call's arguments, log
+//! macros are skipped, `.clone()` is dropped and comparisons are normalised to `<` / `<=`. Every emitted flag is two-sided:
+//! `true` on positively recognising the checked shape, `false` on positively recognising the known weaker alternative,
+//! anything else is a refusal (`Err`).
 use crate::util::*;
 use std::path::PathBuf;
 use syn::visit::Visit;
 
 fn toks<T: quote::ToTokens>(e: &T) -> String {
     quote::ToTokens::to_token_stream(e).to_string().replace(' ', "")
-}
-
-#[derive(Default)]
-struct Bins {
-    v: Vec<(String, String, String)>,
-}
-impl<'ast> Visit<'ast> for Bins {
-    fn visit_expr_binary(&mut self, b: &'ast syn::ExprBinary) {
-        self.v.push((toks(&*b.left), toks(&b.op), toks(&*b.right)));
-        syn::visit::visit_expr_binary(self, b);
-    }
-}
-fn bins(b: &syn::Block) -> Vec<(String, String, String)> {
-    let mut v = Bins::default();
-    v.visit_block(b);
-    v.v
-}
-
-fn one_cmp(what: &str, v: &[(String, String, String)], l: &dyn Fn(&str) -> bool, r: &dyn Fn(&str) -> bool) -> Result<String, String> {
-    let hits: Vec<&(String, String, String)> =
-        v.iter().filter(|(a, op, b)| l(a) && r(b) && ["<", "<=", ">", ">=", "==", "!="].contains(&op.as_str())).collect();
-    if hits.len() != 1 {
-        return Err(format!("{what}: expected exactly one comparison of the searched shape, found {}", hits.len()));
-    }
-    Ok(hits[0].1.clone())
 }
 
 fn lean_cmp(name: &str, doc: &str, op: &str) -> Result<String, String> {
@@ -50,6 +32,566 @@ fn lean_cmp(name: &str, doc: &str, op: &str) -> Result<String, String> {
     Ok(format!("/-- {doc}: source operator `{op}` -/\ndef {name} (a b : Nat) : Bool := decide ({l})\n"))
 }
 
+// ---------------------------------------------------------------------------------------------------------
+// data-flow walker
+// ---------------------------------------------------------------------------------------------------------
+mod flow {
+    use proc_macro2::{TokenStream, TokenTree};
+    use std::collections::HashMap;
+    use syn::visit::Visit;
+
+    #[derive(Clone, Debug)]
+    pub struct Fact {
+        pub seq: usize,
+        pub ctx: Vec<String>,
+        pub text: String,
+    }
+    #[derive(Clone, Debug)]
+    pub struct IfFact {
+        pub seq: usize,
+        pub ctx: Vec<String>,
+        pub cond: String,
+        /// the then-branch ends in `return` / `continue` / `break`
+        pub diverges: bool,
+        /// `Some((l, op, r))` with op in `<`, `<=`, `==`, `!=` when the condition is one comparison
+        pub cmp: Option<(String, String, String)>,
+    }
+    #[derive(Clone, Debug)]
+    pub struct StructFact {
+        pub seq: usize,
+        pub ctx: Vec<String>,
+        pub name: String,
+        pub fields: Vec<(String, String)>,
+    }
+
+    pub struct Walker {
+        helpers: Vec<(String, syn::Signature, syn::Block)>,
+        stop: Vec<String>,
+        depth: usize,
+        pub env: HashMap<String, String>,
+        ctx: Vec<String>,
+        seq: usize,
+        closures: usize,
+        pub calls: Vec<Fact>,
+        pub ifs: Vec<IfFact>,
+        pub cmps: Vec<(Vec<String>, String, String, String)>,
+        pub fors: Vec<Fact>,
+        pub structs: Vec<StructFact>,
+        pub lets: Vec<(String, String)>,
+        pub tail: Option<String>,
+    }
+
+    const LOGS: [&str; 6] = ["debug", "info", "warn", "error", "trace", "println"];
+
+    fn subst(ts: TokenStream, env: &HashMap<String, String>, out: &mut String) {
+        let v: Vec<TokenTree> = ts.into_iter().collect();
+        for (i, t) in v.iter().enumerate() {
+            match t {
+                TokenTree::Group(g) => {
+                    let (o, c) = match g.delimiter() {
+                        proc_macro2::Delimiter::Parenthesis => ("(", ")"),
+                        proc_macro2::Delimiter::Brace => ("{", "}"),
+                        proc_macro2::Delimiter::Bracket => ("[", "]"),
+                        proc_macro2::Delimiter::None => ("", ""),
+                    };
+                    out.push_str(o);
+                    subst(g.stream(), env, out);
+                    out.push_str(c);
+                }
+                TokenTree::Ident(id) => {
+                    let name = id.to_string();
+                    let prev_dot = i > 0 && matches!(&v[i - 1], TokenTree::Punct(p) if p.as_char() == '.');
+                    // `a::b` path segment (not the single colon of `field: value`)
+                    let prev_colon = i > 1
+                        && matches!(&v[i - 1], TokenTree::Punct(p) if p.as_char() == ':')
+                        && matches!(&v[i - 2], TokenTree::Punct(p) if p.as_char() == ':');
+                    let next_colon = matches!(v.get(i + 1), Some(TokenTree::Punct(p)) if p.as_char() == ':');
+                    let next_bang = matches!(v.get(i + 1), Some(TokenTree::Punct(p)) if p.as_char() == '!')
+                        && !matches!(v.get(i + 2), Some(TokenTree::Punct(p)) if p.as_char() == '=');
+                    match env.get(&name) {
+                        Some(e) if !prev_dot && !prev_colon && !next_colon && !next_bang => out.push_str(e),
+                        _ => {
+                            // keep keywords apart from what follows
+                            out.push_str(&name);
+                            if ["let", "mut", "return", "in", "as", "move", "ref", "else", "if", "match", "for"].contains(&name.as_str()) {
+                                out.push(' ');
+                            }
+                        }
+                    }
+                }
+                TokenTree::Punct(p) => out.push(p.as_char()),
+                TokenTree::Literal(l) => out.push_str(&l.to_string()),
+            }
+        }
+    }
+
+    fn strip_parens(s: &str) -> String {
+        let mut s = s.trim().to_string();
+        loop {
+            if s.starts_with('(') && s.ends_with(')') {
+                // only when the first paren closes at the end
+                let mut d = 0;
+                let mut closes_at_end = true;
+                for (i, c) in s.char_indices() {
+                    if c == '(' {
+                        d += 1;
+                    } else if c == ')' {
+                        d -= 1;
+                        if d == 0 && i != s.len() - 1 {
+                            closes_at_end = false;
+                            break;
+                        }
+                    }
+                }
+                if closes_at_end {
+                    s = s[1..s.len() - 1].trim().to_string();
+                    continue;
+                }
+            }
+            return s;
+        }
+    }
+
+    fn diverging(e: &syn::Expr) -> bool {
+        matches!(e, syn::Expr::Return(_) | syn::Expr::Continue(_) | syn::Expr::Break(_))
+    }
+    fn block_diverges(b: &syn::Block) -> bool {
+        match b.stmts.last() {
+            Some(syn::Stmt::Expr(e, _)) => diverging(e),
+            _ => false,
+        }
+    }
+    fn block_tail(b: &syn::Block) -> Option<&syn::Expr> {
+        match b.stmts.last() {
+            Some(syn::Stmt::Expr(e, None)) => Some(e),
+            _ => None,
+        }
+    }
+
+    impl Walker {
+        pub fn new(file: &syn::File, stop: &[&str]) -> Self {
+            Walker {
+                helpers: private_helpers(file),
+                stop: stop.iter().map(|s| s.to_string()).collect(),
+                depth: 0,
+                env: HashMap::new(),
+                ctx: vec![],
+                seq: 0,
+                closures: 0,
+                calls: vec![],
+                ifs: vec![],
+                cmps: vec![],
+                fors: vec![],
+                structs: vec![],
+                lets: vec![],
+                tail: None,
+            }
+        }
+
+        /// walk a function: parameters become `$1`, `$2`, … (`self` stays)
+        pub fn walk_fn(&mut self, sig: &syn::Signature, block: &syn::Block) {
+            let mut n = 0;
+            for a in &sig.inputs {
+                if let syn::FnArg::Typed(t) = a {
+                    n += 1;
+                    let src = format!("${n}");
+                    self.bind_pat(&t.pat, &src);
+                }
+            }
+            self.visit_block(block);
+            self.tail = block_tail(block).map(|e| self.value_of(e));
+        }
+
+        pub fn canon<T: quote::ToTokens>(&self, t: &T) -> String {
+            let mut out = String::new();
+            let ts = quote::ToTokens::to_token_stream(t);
+            // closure parameters inside the expression are renamed positionally ($c0, $c1, …)
+            struct Cl(Vec<(String, String)>);
+            impl<'ast> Visit<'ast> for Cl {
+                fn visit_expr_closure(&mut self, c: &'ast syn::ExprClosure) {
+                    for (i, p) in c.inputs.iter().enumerate() {
+                        let mut q = p;
+                        loop {
+                            match q {
+                                syn::Pat::Type(t) => q = &t.pat,
+                                syn::Pat::Reference(r) => q = &r.pat,
+                                _ => break,
+                            }
+                        }
+                        if let syn::Pat::Ident(id) = q {
+                            self.0.push((id.ident.to_string(), format!("$c{i}")));
+                        }
+                    }
+                    syn::visit::visit_expr_closure(self, c);
+                }
+            }
+            let mut env = self.env.clone();
+            if let Ok(e) = syn::parse2::<syn::Expr>(ts.clone()) {
+                let mut cl = Cl(vec![]);
+                cl.visit_expr(&e);
+                for (k, v) in cl.0 {
+                    env.insert(k, v);
+                }
+            }
+            subst(ts, &env, &mut out);
+            strip_parens(&out.replace(".clone()", ""))
+        }
+
+        fn next(&mut self) -> usize {
+            self.seq += 1;
+            self.seq
+        }
+
+        fn bind_pat(&mut self, pat: &syn::Pat, src: &str) {
+            match pat {
+                syn::Pat::Ident(i) => {
+                    self.env.insert(i.ident.to_string(), src.to_string());
+                }
+                syn::Pat::Type(t) => self.bind_pat(&t.pat, src),
+                syn::Pat::Reference(r) => self.bind_pat(&r.pat, src),
+                syn::Pat::Paren(p) => self.bind_pat(&p.pat, src),
+                syn::Pat::TupleStruct(ts) => {
+                    let c = ts.path.segments.last().map(|s| s.ident.to_string()).unwrap_or_default();
+                    if ts.elems.len() == 1 {
+                        let s = format!("{c}<{src}>");
+                        self.bind_pat(&ts.elems[0], &s);
+                    } else {
+                        for (i, e) in ts.elems.iter().enumerate() {
+                            let s = format!("{c}.{i}<{src}>");
+                            self.bind_pat(e, &s);
+                        }
+                    }
+                }
+                syn::Pat::Tuple(t) => {
+                    for (i, e) in t.elems.iter().enumerate() {
+                        let s = format!("#{i}<{src}>");
+                        self.bind_pat(e, &s);
+                    }
+                }
+                syn::Pat::Struct(st) => {
+                    let c = st.path.segments.last().map(|s| s.ident.to_string()).unwrap_or_default();
+                    for f in &st.fields {
+                        let m = match &f.member {
+                            syn::Member::Named(i) => i.to_string(),
+                            syn::Member::Unnamed(i) => i.index.to_string(),
+                        };
+                        let s = format!("{src}→{c}.{m}");
+                        self.bind_pat(&f.pat, &s);
+                    }
+                }
+                _ => {}
+            }
+        }
+
+        /// canonical text of the VALUE of an expression: `if let P = E { tail } else { diverge }`, the corresponding
+        /// `match`, blocks with a tail and calls of single-expression private helpers are looked through
+        pub fn value_of(&mut self, e: &syn::Expr) -> String {
+            match e {
+                syn::Expr::Paren(p) => self.value_of(&p.expr),
+                syn::Expr::If(i) => {
+                    if let syn::Expr::Let(l) = &*i.cond {
+                        if let Some(t) = block_tail(&i.then_branch) {
+                            if i.then_branch.stmts.len() == 1 {
+                                let s = self.value_of(&l.expr);
+                                let saved = self.env.clone();
+                                self.bind_pat(&l.pat, &s);
+                                let v = self.value_of(t);
+                                self.env = saved;
+                                return v;
+                            }
+                        }
+                    }
+                    self.canon(e)
+                }
+                syn::Expr::Match(m) => {
+                    let live: Vec<&syn::Arm> = m.arms.iter().filter(|a| !diverging(&a.body) && !matches!(&*a.body, syn::Expr::Block(b) if block_diverges(&b.block))).collect();
+                    if live.len() == 1 && live[0].guard.is_none() {
+                        let s = self.value_of(&m.expr);
+                        let saved = self.env.clone();
+                        self.bind_pat(&live[0].pat, &s);
+                        let v = self.value_of(&live[0].body);
+                        self.env = saved;
+                        return v;
+                    }
+                    self.canon(e)
+                }
+                syn::Expr::Block(b) if b.block.stmts.len() == 1 => match block_tail(&b.block) {
+                    Some(t) => self.value_of(t),
+                    None => self.canon(e),
+                },
+                syn::Expr::MethodCall(m) => {
+                    if let Some((sig, body)) = self.helper(&m.method.to_string()) {
+                        if toks(&*m.receiver) == "self" && body.stmts.len() == 1 {
+                            if let Some(t) = block_tail(&body) {
+                                let args: Vec<String> = m.args.iter().map(|a| self.value_of(a)).collect();
+                                return self.inline_value(&sig, t, &args);
+                            }
+                        }
+                    }
+                    self.canon(e)
+                }
+                syn::Expr::Call(c) => {
+                    let name = toks(&*c.func).rsplit("::").next().unwrap_or("").to_string();
+                    if let Some((sig, body)) = self.helper(&name) {
+                        if body.stmts.len() == 1 {
+                            if let Some(t) = block_tail(&body) {
+                                let args: Vec<String> = c.args.iter().map(|a| self.value_of(a)).collect();
+                                return self.inline_value(&sig, t, &args);
+                            }
+                        }
+                    }
+                    self.canon(e)
+                }
+                _ => self.canon(e),
+            }
+        }
+
+        fn inline_value(&mut self, sig: &syn::Signature, tail: &syn::Expr, args: &[String]) -> String {
+            let saved = self.env.clone();
+            let mut n = 0;
+            for a in &sig.inputs {
+                if let syn::FnArg::Typed(t) = a {
+                    if let Some(v) = args.get(n) {
+                        let v = v.clone();
+                        self.bind_pat(&t.pat, &v);
+                    }
+                    n += 1;
+                }
+            }
+            let v = self.value_of(tail);
+            self.env = saved;
+            v
+        }
+
+        /// a PRIVATE same-file fn that is not modelled in its own right
+        fn helper(&self, name: &str) -> Option<(syn::Signature, syn::Block)> {
+            if self.stop.iter().any(|s| s == name) || self.depth >= 3 {
+                return None;
+            }
+            self.helpers.iter().find(|(n, _, _)| n == name).map(|(_, s, b)| (s.clone(), b.clone()))
+        }
+
+        /// the facts inside a private helper, with its parameters bound to the arguments of this call
+        fn enter_helper(&mut self, name: &str, args: Vec<String>) {
+            if let Some((sig, body)) = self.helper(name) {
+                let body = &body;
+                let saved = self.env.clone();
+                let mut n = 0;
+                for a in &sig.inputs {
+                    if let syn::FnArg::Typed(t) = a {
+                        if let Some(v) = args.get(n) {
+                            self.bind_pat(&t.pat, v);
+                        }
+                        n += 1;
+                    }
+                }
+                self.depth += 1;
+                self.ctx.push(format!("call:{name}"));
+                self.visit_block(body);
+                self.ctx.pop();
+                self.depth -= 1;
+                self.env = saved;
+            }
+        }
+    }
+
+    fn toks<T: quote::ToTokens>(e: &T) -> String {
+        quote::ToTokens::to_token_stream(e).to_string().replace(' ', "")
+    }
+
+    impl<'ast> Visit<'ast> for Walker {
+        fn visit_local(&mut self, l: &'ast syn::Local) {
+            if let Some(init) = &l.init {
+                self.visit_expr(&init.expr);
+                if let Some((_, d)) = &init.diverge {
+                    self.visit_expr(d);
+                }
+                let v = self.value_of(&init.expr);
+                self.bind_pat(&l.pat, &v);
+                if let syn::Pat::Ident(i) = &l.pat {
+                    self.lets.push((i.ident.to_string(), v));
+                } else if let syn::Pat::Type(t) = &l.pat {
+                    if let syn::Pat::Ident(i) = &*t.pat {
+                        self.lets.push((i.ident.to_string(), v));
+                    }
+                }
+            }
+        }
+
+        fn visit_expr_if(&mut self, i: &'ast syn::ExprIf) {
+            if let syn::Expr::Let(l) = &*i.cond {
+                self.visit_expr(&l.expr);
+                let s = self.value_of(&l.expr);
+                let saved = self.env.clone();
+                self.bind_pat(&l.pat, &s);
+                self.ctx.push(format!("iflet:{}={s}", toks(&*l.pat)));
+                self.visit_block(&i.then_branch);
+                self.ctx.pop();
+                self.env = saved;
+                if let Some((_, e)) = &i.else_branch {
+                    self.ctx.push(format!("elselet:{s}"));
+                    self.visit_expr(e);
+                    self.ctx.pop();
+                }
+                return;
+            }
+            self.visit_expr(&i.cond);
+            let cond = self.canon(&*i.cond);
+            let cmp = match &*i.cond {
+                syn::Expr::Binary(b) => norm_cmp(&self.canon(&*b.left), &toks(&b.op), &self.canon(&*b.right)),
+                _ => None,
+            };
+            let seq = self.next();
+            self.ifs.push(IfFact { seq, ctx: self.ctx.clone(), cond: cond.clone(), diverges: block_diverges(&i.then_branch), cmp });
+            self.ctx.push(format!("if:{cond}"));
+            self.visit_block(&i.then_branch);
+            self.ctx.pop();
+            if let Some((_, e)) = &i.else_branch {
+                self.ctx.push(format!("else:{cond}"));
+                self.visit_expr(e);
+                self.ctx.pop();
+            }
+        }
+
+        fn visit_expr_match(&mut self, m: &'ast syn::ExprMatch) {
+            self.visit_expr(&m.expr);
+            let s = self.value_of(&m.expr);
+            for a in &m.arms {
+                let saved = self.env.clone();
+                self.bind_pat(&a.pat, &s);
+                self.ctx.push(format!("arm:{}", toks(&a.pat)));
+                if let Some((_, g)) = &a.guard {
+                    self.visit_expr(g);
+                }
+                self.visit_expr(&a.body);
+                self.ctx.pop();
+                self.env = saved;
+            }
+        }
+
+        fn visit_expr_for_loop(&mut self, f: &'ast syn::ExprForLoop) {
+            self.visit_expr(&f.expr);
+            let it = self.canon(&*f.expr);
+            let seq = self.next();
+            self.fors.push(Fact { seq, ctx: self.ctx.clone(), text: it.clone() });
+            let saved = self.env.clone();
+            let s = format!("Each<{it}>");
+            self.bind_pat(&f.pat, &s);
+            self.ctx.push(format!("for:{it}"));
+            self.visit_block(&f.body);
+            self.ctx.pop();
+            self.env = saved;
+        }
+
+        fn visit_expr_closure(&mut self, c: &'ast syn::ExprClosure) {
+            self.closures += 1;
+            let d = self.closures;
+            let saved = self.env.clone();
+            for (i, p) in c.inputs.iter().enumerate() {
+                let s = format!("$c{i}");
+                let _ = d;
+                self.bind_pat(p, &s);
+            }
+            self.visit_expr(&c.body);
+            self.env = saved;
+        }
+
+        fn visit_expr_method_call(&mut self, m: &'ast syn::ExprMethodCall) {
+            let text = self.canon(m);
+            let seq = self.next();
+            self.calls.push(Fact { seq, ctx: self.ctx.clone(), text });
+            let has_closure = m.args.iter().any(|a| matches!(a, syn::Expr::Closure(_)));
+            self.visit_expr(&m.receiver);
+            if has_closure {
+                self.ctx.push(format!("in:{}.{}", self.canon(&*m.receiver), m.method));
+            }
+            for a in &m.args {
+                self.visit_expr(a);
+            }
+            if has_closure {
+                self.ctx.pop();
+            }
+            if toks(&*m.receiver) == "self" {
+                let args: Vec<String> = m.args.iter().map(|a| self.value_of(a)).collect();
+                self.enter_helper(&m.method.to_string(), args);
+            }
+        }
+
+        fn visit_expr_call(&mut self, c: &'ast syn::ExprCall) {
+            let text = self.canon(c);
+            let seq = self.next();
+            self.calls.push(Fact { seq, ctx: self.ctx.clone(), text });
+            syn::visit::visit_expr_call(self, c);
+            let name = toks(&*c.func).rsplit("::").next().unwrap_or("").to_string();
+            let args: Vec<String> = c.args.iter().map(|a| self.value_of(a)).collect();
+            self.enter_helper(&name, args);
+        }
+
+        fn visit_expr_binary(&mut self, b: &'ast syn::ExprBinary) {
+            if let Some((l, op, r)) = norm_cmp(&self.canon(&*b.left), &toks(&b.op), &self.canon(&*b.right)) {
+                self.cmps.push((self.ctx.clone(), l, op, r));
+            }
+            syn::visit::visit_expr_binary(self, b);
+        }
+
+        fn visit_expr_struct(&mut self, s: &'ast syn::ExprStruct) {
+            let name = s.path.segments.last().map(|x| x.ident.to_string()).unwrap_or_default();
+            let mut fields: Vec<(String, String)> = s
+                .fields
+                .iter()
+                .map(|f| {
+                    let m = match &f.member {
+                        syn::Member::Named(i) => i.to_string(),
+                        syn::Member::Unnamed(i) => i.index.to_string(),
+                    };
+                    (m, self.canon(&f.expr))
+                })
+                .collect();
+            fields.sort();
+            let seq = self.next();
+            self.structs.push(StructFact { seq, ctx: self.ctx.clone(), name, fields });
+            syn::visit::visit_expr_struct(self, s);
+        }
+
+        fn visit_macro(&mut self, m: &'ast syn::Macro) {
+            let name = m.path.segments.last().map(|s| s.ident.to_string()).unwrap_or_default();
+            if LOGS.contains(&name.as_str()) {
+                return;
+            }
+            // other macros are opaque
+        }
+    }
+
+    fn private_helpers(file: &syn::File) -> Vec<(String, syn::Signature, syn::Block)> {
+        let mut v = vec![];
+        for it in &file.items {
+            match it {
+                syn::Item::Fn(f) if matches!(f.vis, syn::Visibility::Inherited) => v.push((f.sig.ident.to_string(), f.sig.clone(), (*f.block).clone())),
+                syn::Item::Impl(i) if i.trait_.is_none() => {
+                    for ii in &i.items {
+                        if let syn::ImplItem::Fn(f) = ii {
+                            if matches!(f.vis, syn::Visibility::Inherited) {
+                                v.push((f.sig.ident.to_string(), f.sig.clone(), f.block.clone()));
+                            }
+                        }
+                    }
+                }
+                _ => {}
+            }
+        }
+        v
+    }
+
+    /// comparisons normalised to `<`, `<=`, `==`, `!=` (operands swapped for `>` / `>=`)
+    pub fn norm_cmp(l: &str, op: &str, r: &str) -> Option<(String, String, String)> {
+        match op {
+            "<" | "<=" | "==" | "!=" => Some((l.to_string(), op.to_string(), r.to_string())),
+            ">" => Some((r.to_string(), "<".to_string(), l.to_string())),
+            ">=" => Some((r.to_string(), "<=".to_string(), l.to_string())),
+            _ => None,
+        }
+    }
+}
 fn k_value(repo: &PathBuf) -> Result<u128, String> {
     let lock = std::fs::read_to_string(repo.join("Cargo.lock")).map_err(|e| format!("Cargo.lock: {e}"))?;
     let mut ver = None;
@@ -95,22 +637,329 @@ fn k_value(repo: &PathBuf) -> Result<u128, String> {
     Err("K_VALUE not found in libp2p-kad".into())
 }
 
-/// the body of the match arm of `handle_req_resp_events` whose pattern mentions `Cmd::Replicate`
-fn replicate_arm(f: &syn::ImplItemFn) -> Result<String, String> {
-    struct Arms(Vec<(String, String)>);
-    impl<'ast> Visit<'ast> for Arms {
-        fn visit_arm(&mut self, a: &'ast syn::Arm) {
-            self.0.push((toks(&a.pat), toks(&*a.body)));
-            syn::visit::visit_arm(self, a);
+
+// ---------------------------------------------------------------------------------------------------------
+// recognisers
+// ---------------------------------------------------------------------------------------------------------
+const SELF_ADDR: &str = "NetworkAddress::from_peer(self.self_peer_id)";
+const STORE: &str = "self.swarm.behaviour_mut().kademlia.store_mut()";
+const KAD: &str = "self.swarm.behaviour_mut().kademlia";
+/// functions that are modelled in their own right: never looked through as helpers
+const MODELLED: [&str; 6] = [
+    "try_interval_replication",
+    "get_replicate_candidates",
+    "get_peers_in_range",
+    "add_keys_to_replication_fetcher",
+    "get_closest_k_value_local_peers",
+    "handle_req_resp_events",
+];
+
+fn walk(file: &syn::File, f: &syn::ImplItemFn) -> flow::Walker {
+    let mut w = flow::Walker::new(file, &MODELLED);
+    w.walk_fn(&f.sig, &f.block);
+    if std::env::var("RS2LEAN_DEBUG").map(|v| v == f.sig.ident.to_string()).unwrap_or(false) {
+        for c in &w.calls {
+            eprintln!("CALL {} {:?} {}", c.seq, c.ctx, c.text);
+        }
+        for i in &w.ifs {
+            eprintln!("IF {} {:?} {} div={} cmp={:?}", i.seq, i.ctx, i.cond, i.diverges, i.cmp);
+        }
+        for c in &w.cmps {
+            eprintln!("CMP {:?} {} {} {}", c.0, c.1, c.2, c.3);
+        }
+        for f in &w.fors {
+            eprintln!("FOR {:?} {}", f.ctx, f.text);
+        }
+        for s in &w.structs {
+            eprintln!("STRUCT {:?} {} {:?}", s.ctx, s.name, s.fields);
+        }
+        for l in &w.lets {
+            eprintln!("LET {} = {}", l.0, l.1);
+        }
+        eprintln!("TAIL {:?}", w.tail);
+    }
+    w
+}
+
+/// `text` is exactly one call `prefix…)` (prefix ends with the opening parenthesis), nothing chained after it
+fn whole_call(text: &str, prefix: &str) -> bool {
+    if !text.starts_with(prefix) {
+        return false;
+    }
+    let mut d = 1;
+    for (i, c) in text[prefix.len()..].char_indices() {
+        match c {
+            '(' => d += 1,
+            ')' => {
+                d -= 1;
+                if d == 0 {
+                    return prefix.len() + i == text.len() - 1;
+                }
+            }
+            _ => {}
         }
     }
-    let mut a = Arms(vec![]);
-    a.visit_block(&f.block);
-    let hits: Vec<&(String, String)> = a.0.iter().filter(|(p, _)| p.contains("Cmd::Replicate{holder,keys}") && p.starts_with("Request::Cmd(")).collect();
-    if hits.len() != 1 {
-        return Err(format!("handle_req_resp_events: expected one `Request::Cmd(..Cmd::Replicate {{ holder, keys }})` arm, found {}", hits.len()));
+    false
+}
+
+fn no_adaptors(s: &str) -> bool {
+    ![".filter(", ".filter_map(", ".take(", ".skip(", ".take_while(", ".skip_while(", ".step_by("].iter().any(|a| s.contains(a))
+}
+
+struct Interval {
+    throttle_op: String,
+    fresh_op: String,
+    skips_empty: bool,
+}
+
+fn read_interval(cmd: &syn::File) -> Result<Interval, String> {
+    let f = impl_fn(cmd, "SwarmDriver", None, "try_interval_replication")?;
+    let w = walk(cmd, f);
+    let at = "try_interval_replication";
+    let index = format!("{STORE}.record_addresses_ref()");
+    let cands = format!("self.get_replicate_candidates(&{SELF_ADDR})");
+
+    // throttle: a returning `if` whose condition compares `<last_replication>.elapsed()` with MIN_REPLICATION_INTERVAL_S
+    let is_elapsed = |s: &str| s.ends_with(".elapsed()") && s.contains("self.last_replication");
+    let thr: Vec<&flow::IfFact> = w
+        .ifs
+        .iter()
+        .filter(|i| matches!(&i.cmp, Some((l, _, r)) if (is_elapsed(l) && r == "MIN_REPLICATION_INTERVAL_S") || (is_elapsed(r) && l == "MIN_REPLICATION_INTERVAL_S")))
+        .collect();
+    if thr.len() != 1 || !thr[0].diverges {
+        return Err(format!("{at}: expected one returning `if` comparing last_replication.elapsed() with MIN_REPLICATION_INTERVAL_S, found {}", thr.len()));
     }
-    Ok(hits[0].1.clone())
+    let (l, op, _) = thr[0].cmp.clone().unwrap_or_default();
+    // expressed as `elapsed OP minimum`
+    let throttle_op = match (is_elapsed(&l), op.as_str()) {
+        (true, "<") => "<",
+        (true, "<=") => "<=",
+        (false, "<") => ">",
+        (false, "<=") => ">=",
+        _ => return Err(format!("{at}: throttle comparison uses `{op}`")),
+    }
+    .to_string();
+    if !["<", "<="].contains(&throttle_op.as_str()) {
+        return Err(format!("{at}: the round is skipped when elapsed {throttle_op} minimum — not a throttle"));
+    }
+
+    // stale targets: `self.replication_targets.retain(|_, ts| *ts OP <Instant::now()>)`
+    let fr: Vec<&(Vec<String>, String, String, String)> = w
+        .cmps
+        .iter()
+        .filter(|(ctx, l, _, r)| ctx.iter().any(|c| c == "in:self.replication_targets.retain") && ((l == "*$c1" && r == "Instant::now()") || (r == "*$c1" && l == "Instant::now()")))
+        .collect();
+    if fr.len() != 1 {
+        return Err(format!("{at}: expected `self.replication_targets.retain(|_, deadline| *deadline OP now)`, found {} such comparisons", fr.len()));
+    }
+    // expressed as `deadline OP now`
+    let fresh_op = match (fr[0].1 == "*$c1", fr[0].2.as_str()) {
+        (true, "<") => "<",
+        (true, "<=") => "<=",
+        (false, "<") => ">",
+        (false, "<=") => ">=",
+        _ => return Err(format!("{at}: target timestamp comparison uses `{}`", fr[0].2)),
+    }
+    .to_string();
+    if ![">", ">="].contains(&fresh_op.as_str()) {
+        return Err(format!("{at}: a target is kept when deadline {fresh_op} now — not an expiry"));
+    }
+
+    // candidates of self, minus the recently served ones
+    let skip = format!("{cands}.retain(|$c0|!self.replication_targets.contains_key($c0))");
+    if !w.calls.iter().any(|c| c.text == skip) {
+        if w.calls.iter().any(|c| c.text.starts_with(&format!("{cands}.retain("))) {
+            return Err(format!("{at}: the recently-served filter on the candidates is no longer `!self.replication_targets.contains_key(peer)`"));
+        }
+        return Err(format!("{at}: the targets are no longer `get_replicate_candidates(&self address)` filtered by replication_targets"));
+    }
+
+    // the advertised list: the whole index, unfiltered
+    let list = format!("{index}.values().cloned().collect()");
+    let reps: Vec<&flow::StructFact> = w.structs.iter().filter(|s| s.name == "Replicate").collect();
+    if reps.len() != 1 {
+        return Err(format!("{at}: expected one `Cmd::Replicate {{ .. }}`, found {}", reps.len()));
+    }
+    let field = |s: &flow::StructFact, n: &str| s.fields.iter().find(|(k, _)| k == n).map(|(_, v)| v.clone()).unwrap_or_default();
+    let keys = field(reps[0], "keys");
+    if keys != list {
+        if keys.contains(&index) && !no_adaptors(&keys) {
+            return Err(format!("{at}: the advertised key list is a FILTERED view of the index (`{keys}`): not every held record is advertised"));
+        }
+        return Err(format!("{at}: the advertised key list is `{keys}`, expected the whole index `{list}`"));
+    }
+    if field(reps[0], "holder") != SELF_ADDR {
+        return Err(format!("{at}: the advertised holder is `{}`, expected this node's address", field(reps[0], "holder")));
+    }
+
+    // sent to every remaining target, each stamped with REPLICATION_TIMEOUT
+    let loops: Vec<&flow::Fact> = w.fors.iter().filter(|f| f.text == cands).collect();
+    if loops.len() != 1 {
+        return Err(format!("{at}: expected one loop over the remaining targets, found {}", loops.len()));
+    }
+    let in_loop = |ctx: &Vec<String>| ctx.iter().any(|c| *c == format!("for:{cands}"));
+    let each = format!("Each<{cands}>");
+    let send = w.structs.iter().any(|s| s.name == "SendRequest" && in_loop(&s.ctx) && field(s, "peer") == each && field(s, "req").contains("Cmd::Replicate{") && field(s, "req").contains(&list));
+    let queued = w.calls.iter().any(|c| in_loop(&c.ctx) && c.text.starts_with("self.queue_network_swarm_cmd(NetworkSwarmCmd::SendRequest{"));
+    if !(send && queued) {
+        return Err(format!("{at}: the loop no longer queues `SendRequest {{ req: the Replicate request, peer: each target }}`"));
+    }
+    let stamp = format!("self.replication_targets.insert({each},Instant::now()+REPLICATION_TIMEOUT)");
+    if !w.calls.iter().any(|c| in_loop(&c.ctx) && c.text == stamp) {
+        return Err(format!("{at}: a served target is no longer stamped with `now + REPLICATION_TIMEOUT` inside the send loop"));
+    }
+
+    // nothing is sent (and nothing stamped) when the index is empty?
+    let guard = format!("if:!{list}.is_empty()");
+    let guarded = loops[0].ctx.iter().any(|c| *c == guard);
+    let mentions_empty = loops[0].ctx.iter().any(|c| c.contains(".is_empty()"));
+    let skips_empty = if guarded {
+        true
+    } else if !mentions_empty && loops[0].ctx.iter().all(|c| !c.starts_with("if:") && !c.starts_with("else:")) {
+        false
+    } else {
+        return Err(format!("{at}: the send loop sits under conditions {:?} that are neither `!list.is_empty()` nor absent", loops[0].ctx));
+    };
+    Ok(Interval { throttle_op, fresh_op, skips_empty })
+}
+
+fn read_candidates(cmd: &syn::File) -> Result<(), String> {
+    let f = impl_fn(cmd, "SwarmDriver", None, "get_replicate_candidates")?;
+    let w = walk(cmd, f);
+    let at = "get_replicate_candidates";
+    let allp_prefix = format!("{KAD}.get_closest_local_peers(&$1.as_kbucket_key())");
+    let allp = w
+        .lets
+        .iter()
+        .map(|(_, v)| v.clone())
+        .find(|v| v.starts_with(&allp_prefix) && v.ends_with(".collect()") && no_adaptors(v))
+        .ok_or(format!("{at}: no local is bound to all local peers closest to the target (`get_closest_local_peers(&target.as_kbucket_key())…collect()` without filter/take)"))?;
+    let range = format!("Some<{STORE}.get_farthest_replication_distance()>");
+    let inr = format!("get_peers_in_range(&{allp},$1,{range})");
+    if !w.calls.iter().any(|c| c.text == inr) {
+        return Err(format!("{at}: the in-range peers are no longer `get_peers_in_range(all local peers, target, the store's responsible range)`"));
+    }
+    let len = format!("{inr}.len()");
+    let enough: Vec<&flow::IfFact> = w.ifs.iter().filter(|i| matches!(&i.cmp, Some((l, _, r)) if *l == len || *r == len)).collect();
+    if enough.len() != 1 || !enough[0].diverges {
+        return Err(format!("{at}: expected one returning `if` on the number of in-range peers, found {}", enough.len()));
+    }
+    match enough[0].cmp.clone() {
+        // `len >= CLOSE_GROUP_SIZE` normalises to `CLOSE_GROUP_SIZE <= len`
+        Some((l, op, r)) if l == "CLOSE_GROUP_SIZE" && op == "<=" && r == len => {}
+        Some((l, op, r)) => return Err(format!("{at}: in-range peers are returned when `{l} {op} {r}`; the distance model assumes `peers_in_range.len() >= CLOSE_GROUP_SIZE`")),
+        None => return Err(format!("{at}: unreadable fallback condition")),
+    }
+    let tail = w.tail.clone().unwrap_or_default();
+    let ok_tail = [format!("{allp}.iter().take(CLOSE_GROUP_SIZE).cloned().collect()"), format!("{allp}.into_iter().take(CLOSE_GROUP_SIZE).collect()")];
+    if !ok_tail.contains(&tail) {
+        return Err(format!("{at}: the fallback is `{tail}`, expected the first CLOSE_GROUP_SIZE of the distance-sorted peers"));
+    }
+    // get_peers_in_range: one comparison distance(address, peer) OP range, `<=` or `<` (the operator itself is read by the Distance translator)
+    let g = free_fn(cmd, "get_peers_in_range")?;
+    let mut gw = flow::Walker::new(cmd, &MODELLED);
+    gw.walk_fn(&g.sig, &g.block);
+    let is_dist = |s: &str| s.starts_with("convert_distance_to_u256(&$2.distance(&NetworkAddress::from_peer(");
+    let hits: Vec<&(Vec<String>, String, String, String)> = gw.cmps.iter().filter(|(_, l, _, r)| (is_dist(l) && r == "$3") || (is_dist(r) && l == "$3")).collect();
+    if hits.len() != 1 || !is_dist(&hits[0].1) {
+        return Err(format!("get_peers_in_range: expected one comparison `distance(address, peer) <= / < range`, found {}", hits.len()));
+    }
+    Ok(())
+}
+
+struct Handler {
+    arm_passes_on: bool,
+    checks_close: bool,
+    rejects_self: bool,
+    emits_event: bool,
+}
+
+fn read_handler(rr: &syn::File) -> Result<Handler, String> {
+    // the `Cmd::Replicate { holder, keys }` arm
+    let h = impl_fn(rr, "SwarmDriver", None, "handle_req_resp_events")?;
+    let hw = walk(rr, h);
+    let in_arm = |ctx: &Vec<String>| ctx.iter().any(|c| c.starts_with("arm:Request::Cmd(") && c.contains("Replicate{"));
+    let arm_exists = hw.calls.iter().any(|c| in_arm(&c.ctx)) || hw.structs.iter().any(|s| in_arm(&s.ctx));
+    if !arm_exists {
+        return Err("handle_req_resp_events: no `Request::Cmd(Cmd::Replicate { .. })` arm found".into());
+    }
+    let passes: Vec<&flow::Fact> = hw.calls.iter().filter(|c| in_arm(&c.ctx) && whole_call(&c.text, "self.add_keys_to_replication_fetcher(")).collect();
+    let arm_passes_on = match passes.len() {
+        0 => false,
+        1 => {
+            let t = &passes[0].text;
+            let inner = &t["self.add_keys_to_replication_fetcher(".len()..t.len() - 1];
+            let args: Vec<&str> = inner.split(',').collect();
+            if args.len() == 2 && args[0].ends_with("→Replicate.holder") && args[1].ends_with("→Replicate.keys") {
+                true
+            } else {
+                return Err(format!("handle_req_resp_events: the Replicate arm calls add_keys_to_replication_fetcher({inner}), not with the request's holder and keys"));
+            }
+        }
+        n => return Err(format!("handle_req_resp_events: the Replicate arm calls add_keys_to_replication_fetcher {n} times")),
+    };
+
+    let f = impl_fn(rr, "SwarmDriver", None, "add_keys_to_replication_fetcher")?;
+    let w = walk(rr, f);
+    let at = "add_keys_to_replication_fetcher";
+    let holder = "Some<$1.as_peer_id()>";
+    let ck = "self.get_closest_k_value_local_peers()";
+    let index = format!("{STORE}.record_addresses_ref()");
+    let add = format!("self.replication_fetcher.add_keys({holder},$2,{index})");
+    let adds: Vec<&flow::Fact> = w.calls.iter().filter(|c| whole_call(&c.text, "self.replication_fetcher.add_keys(")).collect();
+    if adds.len() != 1 || adds[0].text != add {
+        return Err(format!("{at}: expected one `replication_fetcher.add_keys(the sender's peer id, the incoming keys, the whole local index)`, found {:?}", adds.iter().map(|c| c.text.clone()).collect::<Vec<_>>()));
+    }
+    if adds[0].ctx.iter().any(|c| c.starts_with("if:") || c.starts_with("for:") || c.starts_with("arm:")) {
+        return Err(format!("{at}: add_keys is only reached under {:?}", adds[0].ctx));
+    }
+    // guards: returning `if`s before add_keys whose condition is a `||` of recognised atoms
+    let close_atom = format!("!{ck}.contains(&{holder})");
+    let self_atoms = [format!("{holder}==self.self_peer_id"), format!("self.self_peer_id=={holder}")];
+    let mut checks_close = false;
+    let mut rejects_self = false;
+    for i in w.ifs.iter().filter(|i| i.diverges && i.seq < adds[0].seq && i.ctx.is_empty()) {
+        for atom in i.cond.split("||") {
+            if atom == close_atom {
+                checks_close = true;
+            } else if self_atoms.iter().any(|a| a == atom) {
+                rejects_self = true;
+            }
+        }
+    }
+    let mentions_close = w.calls.iter().any(|c| c.text.contains("get_closest_k_value_local_peers")) || w.ifs.iter().any(|i| i.cond.contains("get_closest_k_value_local_peers"));
+    if !checks_close && mentions_close {
+        return Err(format!("{at}: the closest-K list is used, but not as `if !closest.contains(&holder) {{ return }}` before add_keys"));
+    }
+    let mentions_self = w.cmps.iter().any(|(_, l, _, r)| (l == holder && r == "self.self_peer_id") || (r == holder && l == "self.self_peer_id"));
+    if !rejects_self && mentions_self {
+        return Err(format!("{at}: the holder is compared with self, but not as `if holder == self {{ return }}` before add_keys"));
+    }
+    // the event
+    let ev = format!("self.send_event(NetworkEvent::KeysToFetchForReplication({add}))");
+    let evs: Vec<&flow::Fact> = w.calls.iter().filter(|c| whole_call(&c.text, "self.send_event(") && c.text.contains("KeysToFetchForReplication")).collect();
+    let emits_event = if evs.is_empty() {
+        false
+    } else if evs.iter().any(|c| c.text == ev && c.seq > adds[0].seq && c.ctx.iter().all(|x| *x == format!("else:{add}.is_empty()") || *x == format!("if:!{add}.is_empty()"))) {
+        true
+    } else {
+        return Err(format!("{at}: KeysToFetchForReplication is sent, but not as `send_event(KeysToFetchForReplication(result of add_keys))` when that result is non-empty"));
+    };
+    Ok(Handler { arm_passes_on, checks_close, rejects_self, emits_event })
+}
+
+fn read_closest(drv: &syn::File) -> Result<(), String> {
+    let f = impl_fn(drv, "SwarmDriver", None, "get_closest_k_value_local_peers")?;
+    let w = walk(drv, f);
+    let tail = w.tail.clone().unwrap_or_default();
+    let ok = ["std::iter::once(self.self_peer_id)", "iter::once(self.self_peer_id)", "once(self.self_peer_id)"].iter().any(|p| {
+        let pre = format!("{p}.chain({KAD}.get_closest_local_peers(&self.self_peer_id.into())");
+        tail.starts_with(&pre) && tail.ends_with(").take(K_VALUE.get()).collect()") && no_adaptors(&tail[pre.len()..tail.len() - ".take(K_VALUE.get()).collect()".len()])
+    });
+    if !ok {
+        return Err(format!("get_closest_k_value_local_peers: result is `{tail}`, expected `once(self).chain(peers nearest to self).take(K_VALUE.get()).collect()`"));
+    }
+    Ok(())
 }
 
 pub fn generate(repo: &PathBuf) -> Result<String, String> {
@@ -128,88 +977,17 @@ pub fn generate(repo: &PathBuf) -> Result<String, String> {
             return Err(format!("{n}: expected Duration::from_secs(..), got {e}"));
         }
     }
+    let iv = read_interval(&cmd)?;
+    let (throttle_op, fresh_op, sends_only_nonempty) = (iv.throttle_op, iv.fresh_op, iv.skips_empty);
+    read_candidates(&cmd)?;
 
-    // ---- try_interval_replication
-    let tir = impl_fn(&cmd, "SwarmDriver", None, "try_interval_replication")?;
-    let tb = bins(&tir.block);
-    let throttle_op = one_cmp("try_interval_replication/throttle", &tb, &|l| l == "last_replication.elapsed()", &|r| r == "MIN_REPLICATION_INTERVAL_S")?;
-    let fresh_op = one_cmp("try_interval_replication/targets", &tb, &|l| l == "*timestamp", &|r| r == "now")?;
-    let src = toks(&tir.block);
-    let lists_whole_index = src.contains("letall_records:Vec<_>=self.swarm.behaviour_mut().kademlia.store_mut().record_addresses_ref().values().cloned().collect();");
-    if !lists_whole_index {
-        return Err("try_interval_replication: `all_records` is no longer `store_mut().record_addresses_ref().values().cloned().collect()` (the unfiltered index)".into());
-    }
-    let sends_all = src.contains("letrequest=Request::Cmd(Cmd::Replicate{holder:NetworkAddress::from_peer(self.self_peer_id),keys:all_records,});")
-        && src.contains("forpeer_idinreplicate_targets{self.queue_network_swarm_cmd(NetworkSwarmCmd::SendRequest{req:request.clone(),peer:peer_id,sender:None,});");
-    if !sends_all {
-        return Err("try_interval_replication: the request is no longer `Cmd::Replicate { holder: self, keys: all_records }` sent to every replicate target".into());
-    }
-    let targets_from_self = src.contains("letself_addr=NetworkAddress::from_peer(self.self_peer_id);letmutreplicate_targets=self.get_replicate_candidates(&self_addr);");
-    let skips_recent = src.contains("replicate_targets.retain(|peer_id|!self.replication_targets.contains_key(peer_id));");
-    let stamps = src.contains("self.replication_targets.insert(peer_id,now+REPLICATION_TIMEOUT)");
-    if !(targets_from_self && skips_recent && stamps) {
-        return Err("try_interval_replication: target selection changed shape (candidates of self, minus recently served, stamped with REPLICATION_TIMEOUT)".into());
-    }
-    let sends_only_nonempty = src.contains("if!all_records.is_empty(){");
-
-    // ---- get_replicate_candidates / get_peers_in_range
-    let grc = impl_fn(&cmd, "SwarmDriver", None, "get_replicate_candidates")?;
-    let gb = bins(&grc.block);
-    let enough_op = one_cmp("get_replicate_candidates/fallback", &gb, &|l| l == "peers_in_range.len()", &|r| r == "CLOSE_GROUP_SIZE")?;
-    let gsrc = toks(&grc.block);
-    if !gsrc.contains("closest_k_peers.iter().take(CLOSE_GROUP_SIZE).cloned().collect()") || !gsrc.contains("get_farthest_replication_distance()") {
-        return Err("get_replicate_candidates: fallback is no longer the first CLOSE_GROUP_SIZE of the distance-sorted peers / range source changed".into());
-    }
-    let gpr = free_fn(&cmd, "get_peers_in_range")?;
-    let in_range_op = one_cmp("get_peers_in_range", &bins(&gpr.block), &|l| l == "distance", &|r| r == "range")?;
-
-    // ---- Cmd::Replicate handler
     let rr_rel = "ant-networking/src/event/request_response.rs";
     let rr = parse_file(&repo.join(rr_rel))?;
-    let h = impl_fn(&rr, "SwarmDriver", None, "handle_req_resp_events")?;
-    let arm = replicate_arm(h)?;
-    let arm_passes_on = arm.contains("self.add_keys_to_replication_fetcher(holder,keys);");
-    let add = impl_fn(&rr, "SwarmDriver", None, "add_keys_to_replication_fetcher")?;
-    let asrc = toks(&add.block);
-    // the guard: `if !closest_k_peers.contains(&holder) || holder == self.self_peer_id { ...; return; }`
-    let closest_from = asrc.contains("letclosest_k_peers=self.get_closest_k_value_local_peers();");
-    struct Ifs(Vec<(String, String)>);
-    impl<'ast> Visit<'ast> for Ifs {
-        fn visit_expr_if(&mut self, i: &'ast syn::ExprIf) {
-            self.0.push((toks(&*i.cond), toks(&i.then_branch)));
-            syn::visit::visit_expr_if(self, i);
-        }
-    }
-    let mut ifs = Ifs(vec![]);
-    ifs.visit_block(&add.block);
-    let returning: Vec<&(String, String)> = ifs.0.iter().filter(|(_, t)| t.ends_with("return;}")).collect();
-    let mut checks_close = false;
-    let mut rejects_self = false;
-    for (c, _) in &returning {
-        let parts: Vec<&str> = c.split("||").collect();
-        if parts.iter().any(|p| *p == "!closest_k_peers.contains(&holder)") && closest_from {
-            checks_close = true;
-        }
-        if parts.iter().any(|p| *p == "holder==self.self_peer_id") {
-            rejects_self = true;
-        }
-    }
-    let filters_against_index = asrc.contains("letall_keys=self.swarm.behaviour_mut().kademlia.store_mut().record_addresses_ref();")
-        && asrc.contains("self.replication_fetcher.add_keys(holder,incoming_keys,all_keys)");
-    if !filters_against_index {
-        return Err("add_keys_to_replication_fetcher: no longer `replication_fetcher.add_keys(holder, incoming_keys, <whole local index>)`".into());
-    }
-    let emits_event = asrc.contains("self.send_event(NetworkEvent::KeysToFetchForReplication(keys_to_fetch))");
+    let hd = read_handler(&rr)?;
+    let (arm_passes_on, checks_close, rejects_self, emits_event) = (hd.arm_passes_on, hd.checks_close, hd.rejects_self, hd.emits_event);
 
-    // ---- get_closest_k_value_local_peers
     let drv = parse_file(&repo.join("ant-networking/src/driver.rs"))?;
-    let ck = impl_fn(&drv, "SwarmDriver", None, "get_closest_k_value_local_peers")?;
-    let csrc = toks(&ck.block);
-    let self_first_cut_at_k = csrc.contains("std::iter::once(self.self_peer_id).chain(peers).take(K_VALUE.get()).collect()")
-        && csrc.contains("get_closest_local_peers(&self_peer_id)");
-    if !self_first_cut_at_k {
-        return Err("get_closest_k_value_local_peers: no longer `once(self).chain(nearest peers).take(K_VALUE.get())`".into());
-    }
+    read_closest(&drv)?;
 
     let mut s = header(&format!("{cmd_rel}, {rr_rel}, ant-networking/src/driver.rs, ant-protocol/src/lib.rs"));
     s.push_str("namespace SafeNet.Gen.Replication\n");
@@ -219,17 +997,6 @@ pub fn generate(repo: &PathBuf) -> Result<String, String> {
     s.push_str(&format!("/-- `REPLICATION_TIMEOUT` in seconds -/\ndef replicationTimeout : Nat := {repl_timeout}\n"));
     s.push_str(&lean_cmp("replTooSoon", "try_interval_replication: `last_replication.elapsed() OP MIN_REPLICATION_INTERVAL_S` skips the round (a = elapsed, b = minimum)", &throttle_op)?);
     s.push_str(&lean_cmp("targetStillFresh", "try_interval_replication: `*timestamp OP now` keeps a recently served target (a = its deadline, b = clock)", &fresh_op)?);
-    // the selection step itself is modelled in SafeNet.Distance (operator of get_peers_in_range from Gen.Distance.inRangeLe);
-    // what that model fixes by construction is checked here
-    if enough_op != ">=" {
-        return Err(format!("get_replicate_candidates: `peers_in_range.len() {enough_op} CLOSE_GROUP_SIZE`, the distance model assumes `>=`"));
-    }
-    if !["<=", "<"].contains(&in_range_op.as_str()) {
-        return Err(format!("get_peers_in_range: `distance {in_range_op} range` is neither `<=` nor `<`"));
-    }
-    if !gsrc.contains("letpeers_in_range=get_peers_in_range(&closest_k_peers,target,responsible_range);") {
-        return Err("get_replicate_candidates: the in-range peers are no longer `get_peers_in_range(all local peers closest first, target, range)`".into());
-    }
     s.push_str(&format!("/-- the `Cmd::Replicate` arm hands the request's `holder` and `keys` to `add_keys_to_replication_fetcher` -/\ndef replicateArmPassesOn : Bool := {}\n", lean_bool(arm_passes_on)));
     s.push_str(&format!("/-- the handler returns early unless the holder is among `get_closest_k_value_local_peers()` -/\ndef replicateChecksCloseness : Bool := {}\n", lean_bool(checks_close)));
     s.push_str(&format!("/-- the handler returns early when the holder is this node -/\ndef replicateRejectsSelf : Bool := {}\n", lean_bool(rejects_self)));
